@@ -45,17 +45,17 @@ def run(ctx, H):
     for s in range(shards):
         part = rows[s::shards]
         text = (C.CASE_HEADER % "" + "From Deserr.checks Require Import K19.\n"
-                + "Definition cases : list (N * (list step * ptr_obs)) := [\n" + ";\n".join(part) + "].\n"
-                + "Eval vm_compute in (bad_ids c19_corr cases).\nEval vm_compute in (bad_ids c19_mon cases).\n")
+                + C.cbigdef("cases", "N * (list step * ptr_obs)", part)
+                + C.evals(["bad_ids c19_corr cases", "bad_ids c19_mon cases"]))
         files.append(("c19_%d_%d" % (ctx.seed, s), text))
     outs = C.run_coq_files(files)
-    bad_corr, bad_mon = [], []
+    bad_corr, bad_mon = C.BadList(), C.BadList()
     for name, (rc, out) in outs.items():
         if rc != 0:
             raise C.Broken("coqc failed on %s:\n%s" % (name, out[-3000:]))
         a, b = C.parse_idlists(out, 2)
-        bad_corr += a
-        bad_mon += b
+        bad_corr = bad_corr + a
+        bad_mon = bad_mon + b
     for i in sorted(set(bad_mon))[:5]:
         ctx.violation("mon-%d" % i, {"kind": "monitor c19_mon failed on the implementation",
                                      "steps": paths[i], "impl": obs[i]})
@@ -71,6 +71,6 @@ def run(ctx, H):
                 "non-trivial = distinct path with at least one step" % (n_exh, len(paths) - n_exh),
         "exhaustive_part": n_exh, "exhaustive": False,
         "samples": [paths[5], paths[n_exh - 1], paths[-1][:12]],
-        "correspondence_disagreements": len(bad_corr), "monitor_failures": len(bad_mon),
+        "correspondence_disagreements": bad_corr.total, "monitor_failures": bad_mon.total,
     })
     ctx.assumptions += ["keys in C19 cases avoid characters whose Rust Debug escaping differs from JSON (read-back of to_owned through Debug)"]
